@@ -32,7 +32,7 @@ type c29Out struct {
 }
 
 func c29Command(r *rand.Rand, uniq int, long bool) string {
-	words := []string{"out", "echo", "ls -la", "git commit -m", "é日本", "😀", "| grep x", "-> foreach i { out $i }", "\"quoted \\\" text\"", "'single'", "{ block }", "# comment", "a=1", "\\", "\t", "%[1,2,3]"}
+	words := []string{"out", "echo", "ls -la", "git commit -m", "é日本", "😀", "| grep x", "-> foreach i { out $i }", "\"quoted \\\" text\"", "'single'", "{ block }", "# comment", "a=1", "\\", "\t", "%[1,2,3]", "\x1b[31mred\x1b[0m", "\x01", "\x7f", "\x07bell", "\U000E0001tag", "\x0b"}
 	var b strings.Builder
 	fmt.Fprintf(&b, "cmd%d", uniq)
 	n := 1 + r.Intn(6)
